@@ -328,6 +328,8 @@ S1 :: struct { a: i32 };
 S2 :: struct { a: i32 };
 En1 :: enum { A: i32, B };
 En2 :: enum { A: i32, B };
+DS1 :: distinct S1;
+DF :: distinct f32;
 """
 EN1 = "E 5 2 V 5 0 6 i32 0 V 5 1 7 VOID 1"
 EN2 = "E 8 2 V 8 0 9 i32 0 V 8 1 10 VOID 1"
@@ -337,7 +339,8 @@ SRC_TYPES = [
     ("D1", "D 1 i32"), ("D2", "D 2 i32"), ("S1", "S 3 1 0 i32"), ("S2", "S 4 1 0 i32"),
     ("En1", EN1), ("En2", EN2), ("En1.A", "V 5 0 6 i32 0"), ("En2.A", "V 8 0 9 i32 0"),
     ("?i32", "O i32"), ("?D1", "O D 1 i32"), ("[2]i32", "A 2 i32"), ("[2]D1", "A 2 D 1 i32"),
-    ("^i32", "P 0 i32"), ("^D1", "P 0 D 1 i32"), ("distinct'x", None),
+    ("^i32", "P 0 i32"), ("^D1", "P 0 D 1 i32"), ("^D2", "P 0 D 2 i32"),
+    ("DS1", "D 11 S 3 1 0 i32"), ("DF", "D 12 f32"), ("distinct'x", None),
 ]
 SRC_TYPES = [(s, m) for s, m in SRC_TYPES if m is not None]
 # untyped literals as provided values (C13's admitted exception): (expression, model type)
@@ -431,6 +434,7 @@ def run_stream_b(fl, drv, har, prop):
     diffs = 0
     first = None
     hist = {}
+    crossing = []
     for (pos, es, em, ps, pm), prog, out, mo in zip(cases, progs, outs, mouts):
         got = classify_prog(out)
         if mo.startswith("PAIRS") or " " in mo:
@@ -453,12 +457,25 @@ def run_stream_b(fl, drv, har, prop):
             v.failing(cls, {"key": "prog:%s:%s:%s" % (pos, es, ps), "position": pos, "expected": es,
                             "provided": ps, "program": prog, "implementation": out})
         if prop == "C13" and pos in ("annotation", "argument", "return", "assignment") and got == "ACCEPT":
-            nominal_src = {"D1", "D2", "S1", "S2", "En1.A", "En2.A"}
+            nominal_src = {"D1", "D2", "S1", "S2", "En1.A", "En2.A", "DS1", "DF"}
             allowed = {("En1.A", "En1"), ("En2.A", "En2")}
-            if ps in nominal_src and es != ps and (ps, es) not in allowed and es in (nominal_src | {"i32", "En1", "En2"}):
-                v.failing("program-accepts-nominal-crossing:" + pos,
-                          {"key": "progx:%s:%s:%s" % (pos, es, ps), "position": pos, "expected": es,
-                           "provided": ps, "program": prog, "implementation": out})
+            if ps in nominal_src and es != ps and (ps, es) not in allowed and \
+                    es in (nominal_src | {"i32", "f32", "En1", "En2"}):
+                crossing.append((pos, es, em, ps, pm, prog, out))
+    if crossing:
+        # classify with the extracted ntarget (provided -> expected): a known wrapper / payload target
+        # keeps its API-level class, anything else is a crossing in that position
+        codes = C.run_lines(drv, ["PAIRS %s %s ; %s ; %s" % (EN1, EN2, pm, em) for (_, _, em, _, pm, _, _) in crossing],
+                            indexed=False)
+        for (pos, es, em, ps, pm, prog, out), mo in zip(crossing, codes):
+            try:
+                code = mo.split(" ")[1].split("|")[1][1:2]
+            except Exception:
+                code = "?"
+            cls = {"3": "nominal-into-own-wrapper", "5": "struct-into-variant-payload"}.get(
+                code, "program-accepts-nominal-crossing:" + pos)
+            v.failing(cls, {"key": "progx:%s:%s:%s" % (pos, es, ps), "position": pos, "expected": es,
+                            "provided": ps, "program": prog, "implementation": out, "ntarget_code": code})
     # regression corpus: programs that must keep their recorded outcome class
     import glob
     files = sorted(glob.glob(os.path.join(C.CORPUS, prop, "*.capy")))
@@ -470,6 +487,10 @@ def run_stream_b(fl, drv, har, prop):
             cls = "program-panics:weak-not-fit" if "is_weak_replaceable_by" in out else "program-panics:other"
             v.failing(cls, {"key": "corpus:" + os.path.basename(f), "file": f, "program": open(f).read(),
                             "implementation": out})
+    v.coverage["binary_distinct_with_strong_underlying_accepted"] = sorted(
+        "%s: %s op %s" % (pos, es, ps) for (pos, es, em, ps, pm), out in zip(cases, outs)
+        if pos in ("binary_add", "compound_add", "binary_eq") and classify_prog(out) == "ACCEPT"
+        and {es, ps} in ({"D1", "i32"}, {"DF", "f32"}, {"DS1", "S1"}))
     fl.stream("B: programs (expected, provided) x positions through hcommon::frontend vs ExpectMatch/max model",
               len(cases), diffs, first)
     v.coverage["stream_b_outcomes"] = {"%s/%s" % k: n for k, n in sorted(hist.items())}
